@@ -646,9 +646,12 @@ VARIANTS = [
      "edits": [(OPT, "  node = node.Visit(AdjustReturnAndConstantGenericType())\n", ""),
                (OPT, "  node = node.Visit(RemoveDuplicates())\n",
                 "  node = node.Visit(AdjustReturnAndConstantGenericType())\n  node = node.Visit(RemoveDuplicates())\n")]},
+    {"name": "revert-D26-no-rejoin-after-adjust", "rule": "R11.5", "file": OPT, "expect": "fire",
+     "old": "  # Turning `object` into `Any` above can put Any into a union; join again.\n  node = node.Visit(SimplifyUnions())\n",
+     "new": ""},
     {"name": "rejoin-after-adjust-only-when-remove-mutable", "rule": "R11.5", "file": OPT, "expect": "fire",
-     "old": "    node = node.Visit(AbsorbMutableParameters())\n",
-     "new": "    node = node.Visit(SimplifyUnions())\n    node = node.Visit(AbsorbMutableParameters())\n"},
+     "old": "  # Turning `object` into `Any` above can put Any into a union; join again.\n  node = node.Visit(SimplifyUnions())\n  if remove_mutable:\n",
+     "new": "  if remove_mutable:\n    node = node.Visit(SimplifyUnions())\n"},
     # R11.4
     {"name": "final-simplify-containers-dropped", "rule": "R11.4", "file": OPT, "expect": "fire",
      "old": "    node = node.Visit(visitors.AdjustSelf())\n  node = node.Visit(SimplifyContainers())\n",
